@@ -240,7 +240,18 @@ def build_kwargs(args, site_mask, sample_mask, calls):
         else:
             kw["individuals"] = iv
     if args.get("individual_names") is not None:
-        kw["individual_names"] = list(args["individual_names"])
+        nf = args.get("names_form", "list")
+        if nf == "tuple":
+            kw["individual_names"] = tuple(args["individual_names"])
+        elif nf == "array":
+            import numpy as np
+            kw["individual_names"] = np.array(list(args["individual_names"]), dtype=object)
+        elif nf == "str_array":
+            import numpy as np
+            kw["individual_names"] = np.array(list(args["individual_names"]), dtype=str) \
+                if args["individual_names"] else []
+        else:
+            kw["individual_names"] = list(args["individual_names"])
     tr = args.get("position_transform")
     if tr == "legacy":
         kw["position_transform"] = "legacy"
@@ -789,6 +800,10 @@ def gen_case(rng, many_alleles=False):
         p_internal_sample=0.2)
     if rng.random() < 0.6:
         desc["scale"] = 1
+    # node ids need not follow time order: samples are then not the first nodes and the nodes
+    # of an individual neither contiguous nor ordered (layout / masks / names are drawn afterwards,
+    # so everything node-indexed in the case already refers to the new ids)
+    desc, _pi = gen_ts.permute_node_ids(rng, desc, p=0.5)
     if not any(nd[0] & 1 for nd in desc["nodes"]) and rng.random() < 0.85:
         return gen_case(rng, many_alleles)
     if many_alleles and rng.random() < 0.8:
@@ -842,6 +857,7 @@ def gen_case(rng, many_alleles=False):
     if rng.random() < 0.3:
         n = nindiv if (nindiv is not None and rng.random() < 0.9) else rng.randrange(0, 4)
         args["individual_names"] = ["s%d%s" % (j, rng.choice(["", "_x", " y"])) for j in range(n)]
+        args["names_form"] = rng.choice(["list", "list", "tuple", "array", "str_array"])
     if rng.random() < 0.6:
         form = rng.choice(["bool_array", "bool_array", "bool_strided", "bool_reversed", "bool_col", "list", "list",
                            "int_list", "tuple", "int_array", "int32_array", "int_strided", "int8_array",
@@ -917,6 +933,20 @@ def directed_cases():
             d["individuals"] = [[0, [], [], ""] for _ in range(3)]
             sm = {"form": form, "values": [vals, vals] if form == "callable" else vals}
             out.append({"desc": d, "args": {"individuals": inds, "sample_mask": sm}})
+    # capacity / width boundaries: 63, 64, 65, 127, 128, 129 written columns, ploidies that make
+    # the template and the line lengths cross powers of two, a mask entry for every column
+    for nsam in (63, 64, 65, 127, 128, 129):
+        sites = [(3, "A", [(nsam - 1, "C"), (0, "G")]), (7, "G", [(nsam // 2, "T")])]
+        for pl in sorted({1, 2 if nsam % 2 == 0 else nsam, nsam, 3 if nsam % 3 == 0 else 1, 5 if nsam % 5 == 0 else 1}):
+            out.append({"desc": star_desc(nsam, sites, isolated=(1, nsam - 2)), "args": {"ploidy": pl}})
+        out.append({"desc": star_desc(nsam, sites), "args": {
+            "sample_mask": {"form": "bool_array", "values": [k % 3 == 0 for k in range(nsam)]}}})
+    # edge-less end regions with sites in the gaps (every sample isolated there)
+    d = star_desc(4, [(0.5, "A", [(0, "T")]), (1, "C", []), (4, "G", [(2, "T")]), (8, "T", [(1, "A")]), (9, "A", [])])
+    d["edges"] = [[2, 7, 4, c, ""] for c in range(4)]
+    for iam in (None, False):
+        out.append({"desc": copy.deepcopy(d), "args": {"isolated_as_missing": iam, "allow_position_zero": True}})
+        out.append({"desc": copy.deepcopy(d), "args": {"isolated_as_missing": iam, "ploidy": 2, "position_transform": "legacy"}})
     # zero samples / zero sites / zero nodes
     d = star_desc(2, base_sites[1:])
     for nd in d["nodes"]:
@@ -1127,6 +1157,7 @@ def coq_term(case, obs):
 def gen_mapping_case(rng):
     desc = gen_ts.random_desc(rng, max_nodes=9, max_L=3, max_sites=0, max_muts=0, metadata=False,
                               individuals=False, populations=False, p_internal_sample=0.25)
+    desc, _pi = gen_ts.permute_node_ids(rng, desc, p=0.5)
     mode = rng.choice(["none", "none", "all", "all", "all_shuffled", "diploid", "subset", "partial", "bad",
                        "bad", "empty_table"])
     impose_layout(rng, desc, mode)
